@@ -34,7 +34,7 @@ META = {
                   "Tolerance 1e-7*||U||_F on the Frobenius distance (DESIGN: documented numerical algorithm). Sparse / batched / traced (jax.jit, capture) inputs are not exercised.",
     "shards": {"quick": 2, "thorough": 16},
     "budget_s": {"quick": 50, "thorough": 200},
-    "min_evals": {"quick": 1500, "thorough": 30000},
+    "min_evals": {"quick": 1500, "thorough": 20000},
     "min_nontrivial": {"quick": 300, "thorough": 5000},
     "deciding": ["synth.matrix", "synth.cnots"],
     "rule": "case = (entry point, unitary); distinct = distinct (entry point, family, matrix bytes); non-trivial = unitary is not the identity "
@@ -238,9 +238,13 @@ def run(ctx):  # noqa: C901
             kind = "phase" if (exact and errp <= tol) else "matrix"
             famtag = fam.split("-1e")[0]
             mech = f"{kind}:{entry}"
-            if fam.startswith("walk-") and err < 1e-1 and U.shape[0] == 4:
-                # mechanism: numerical CNOT-count classification snaps a unitary that is close to (not in) a lower class
-                mech = f"boundary-loss:two_qubit:cnots={(info_extra or {}).get('n_cnots', sum(1 for o in ops_ if len(o.wires) == 2))}"
+            if U.shape[0] == 4:
+                # mechanism classifier: the numerical CNOT-count classification snapped a unitary that is close to (but not
+                # in) a lower class: a boundary walker, or zero CNOTs emitted for a unitary that is not a tensor product
+                ncx_ = sum(1 for o in ops_ if len(o.wires) == 2)
+                s2 = float(np.linalg.svd(U.reshape(2, 2, 2, 2).transpose(0, 2, 1, 3).reshape(4, 4), compute_uv=False)[1])
+                if (fam.startswith("walk-") and err < 1e-1) or (ncx_ == 0 and s2 > 1e-9 and s2 < 0.05):
+                    mech = f"boundary-loss:two_qubit:cnots={ncx_}"
             _viol(ctx, "synth.matrix", f"{entry} on a {fam} unitary: emitted circuit differs from U by {err:.3e} in Frobenius norm "
                                           f"(> {tol:.1e}; {'exact' if exact else 'up to phase'}; modulo phase {errp:.3e})",
                           case=info, mech=mech, observed={"err": err, "err_mod_phase": errp})
@@ -249,9 +253,9 @@ def run(ctx):  # noqa: C901
     def nontrivial(U):
         return sv.phase_dist(U, np.eye(U.shape[0])) > 1e-6
 
-    k1 = ctx.n(40, 1600)
-    k2 = ctx.n(24, 1400)
-    kn = ctx.n(3, 60)
+    k1 = ctx.n(40, 700)
+    k2 = ctx.n(24, 600)
+    kn = ctx.n(3, 40)
     idx = 0
     # ------------------------------------------------------------------ one qubit
     for fam, U in one_qubit_family(rng, sv, k1):
